@@ -783,6 +783,72 @@ def gen_bigint_history(rng, length):
     return [("expr", ("raw", t)) for t in hist]
 
 
+# ---------------------------------------------------------------- process-global state a text may depend on
+
+def process_state():
+    """numeric state shared by every interpreter of the process"""
+    import decimal
+    import sys
+    st = {"np.geterr": dict(np.geterr()), "np.geterrcall": repr(np.geterrcall()),
+          "np.printoptions": repr(sorted((k, repr(v)) for k, v in np.get_printoptions().items())),
+          "recursionlimit": sys.getrecursionlimit()}
+    dc = decimal.getcontext()
+    st["decimal"] = repr((dc.prec, dc.rounding, dc.Emin, dc.Emax, sorted(str(t) for t, on in dc.traps.items() if on)))
+    torch = sys.modules.get("torch")
+    if torch is not None:
+        try:
+            st["torch"] = repr((torch.get_default_dtype(), torch.is_grad_enabled()))
+        except Exception as e:      # never let instrumentation decide the verdict
+            st["torch"] = "unreadable:" + type(e).__name__
+    return st
+
+
+def restore_process_state(st):
+    np.seterr(**st["np.geterr"])
+
+
+def state_diff(g0, g1):
+    return {k: (g0.get(k), g1.get(k)) for k in g0 if g0.get(k) != g1.get(k)}
+
+
+# probes: texts whose value depends on how numpy treats overflow / underflow / division by zero / invalid;
+# each is evaluated in a brand-new interpreter given the same values, before the history and after every statement
+PROBE_PRELUDE = ['a::[1e308 1.0]', 'b::1e308', 'c::[1e-308 1.0]', 'd::0', 'e::[1 2 3]']
+PROBES = ['a*10', 'a+a', 'b*10', 'b*b', 'c%1e10', '1%d', 'e%d', 'd%d', 'a^2', '10^400', '+/a', '*/a*10', '{x*10}(a)']
+
+
+def run_probes():
+    from klongpy import KlongInterpreter
+    k = KlongInterpreter()
+    for t in PROBE_PRELUDE:
+        k(t)
+    return [execute(k, t) for t in PROBES]
+
+
+NUM_VALUES = ['[1e308 1.0]', '1e308', '[1e-308 1.0]', '0', '[1 2 3]', '2.5', '[0 1]', '7', '"a"', '[1 2]', '[2.0 3.0]']
+# statements that fail inside an arithmetic verb (type error, length error, undefined name) and assign nothing
+FAILING = ['"a"^2', 'qq^2', '[1 2 3]^[1 2]', 'b::qq^2', '"a"+1', '[1 2 3]*[1 2]', 'qq%2', 'a^"x"', '"ab"%0',
+           '-"a"', '[1 2 3]+[1 2]', 'c::"a"*2', '2^"a"', 'zz-1', '[1 2 3]%[1 2]', '"a"^"b"', '+/"ab"^2', '{x^2}("a")',
+           '{x^y}([1 2 3];[1 2])', '[1 2 3]^[1.5 2]', '(1%0)^"a"', '_"a"', '"a"<1', '[1 2]=[1 2 3]']
+NUM_TEXTS = ['a*10', 'a+a', 'b*10', '1e308*10', 'b*b', 'c%1e10', '1%d', '[1 2]%0', '0%0', 'a^2', '10^400',
+             '2^[10 2000]', 'a-(-a)', '+/a', '*/a*10', '{x*10}(a)', 'f::{x*x}', 'f(b)', 'f(a)', '(-1)^0.5', '_b', '#a*10']
+
+
+def gen_numeric_history(rng, length):
+    hist = [f"{w}::{rng.choice(NUM_VALUES)}" for w in ("a", "b", "c", "d")]
+    for _ in range(length):
+        r = rng.random()
+        if r < 0.35:
+            hist.append(rng.choice(FAILING))
+        elif r < 0.75:
+            hist.append(rng.choice(NUM_TEXTS))
+        elif r < 0.85:
+            hist.append(f"{rng.choice('abcd')}::{rng.choice(NUM_VALUES)}")
+        else:
+            hist.append(rng.choice(hist))
+    return [("expr", ("raw", t)) for t in hist]
+
+
 def scripted_histories():
     """hand-made histories the property description names"""
     A_ = lambda n, e: ("expr", assign(n, e))
@@ -859,6 +925,9 @@ def scripted_histories():
                 R_('g::{$x*y}'), R_('g("ab";2)'), R_('g(10000000000;10000000000)')])
     out.append([R_('a::[3 5]@0;b::2'), R_(',a*b'), R_('a::10000000000;b::a'), R_(',a*b'), R_('$a+b'),
                 R_('b::"ab"'), R_('$a+b'), R_('b::4611686018427387904;a::b'), R_('$a+b'), R_(',a*b')])
+    # a failing statement must not leave process-wide numeric state behind (overflow -> inf, not an error)
+    out.append([R_('a::[1e308 1.0]'), R_('a*10'), R_('a+a'), R_('1e308*10'), R_('"a"^2'), R_('a*10'), R_('b::qq^2'),
+                R_('a+a'), R_('[1 2 3]^[1 2]'), R_('1e308*10'), R_('a^2'), R_('1%0'), R_('10^400')])
     # dictionaries are shared and updated in place; dictionary literals are fresh each time
     out.append([A_("t", ("dlit", [(1, 2)])), A_("d", var("t")), E_(op2("join", var("t"), op2("join", lit_int(3), lit_int(4)))),
                 E_(var("d")), A_("t", ("dlit", [(1, 2)])), E_(var("t")), E_(var("d")), E_(op2("find", var("d"), lit_int(3)))])
@@ -881,8 +950,25 @@ def top_verb(st):
     return e[1] if e[0] in ("op1", "op2") else e[0]
 
 
-def run_history(ctx, stmts, drv, label):
-    """returns True if nothing was reported"""
+def run_history(ctx, stmts, drv, label, probes=False):
+    """returns True if nothing was reported; an exception out of the real code's data or out of the harness's
+    own decoding of it is reported with the history as replay, never raised"""
+    import traceback
+    g0 = process_state()
+    try:
+        return _run_history(ctx, stmts, drv, label, probes)
+    except common.Infra:
+        raise
+    except Exception as e:
+        ctx.mismatch("harness could not run / decode this history on the real code",
+                     dict(kind=label, history=[json_stmt(s) for s in stmts], texts=[stmt_text(s) for s in stmts]),
+                     "history runs and its results decode", f"{type(e).__name__}: {e}\n" + traceback.format_exc()[-1500:])
+        return False
+    finally:
+        restore_process_state(g0)
+
+
+def _run_history(ctx, stmts, drv, label, probes):
     from klongpy import KlongInterpreter
     A = KlongInterpreter()
     C = KlongInterpreter()
@@ -891,6 +977,7 @@ def run_history(ctx, stmts, drv, label):
         drv.ask("reset")
     clean = True
     pending = None
+    probe_base = run_probes() if probes else None
     for i, st in enumerate(stmts):
         text = stmt_text(st)
         case = dict(kind=label, history=[json_stmt(s) for s in stmts[:i + 1]], texts=[stmt_text(s) for s in stmts[:i + 1]])
@@ -899,11 +986,35 @@ def run_history(ctx, stmts, drv, label):
         C._parse_cache.clear()
         C._compiled_cache.clear()
         strip_memos(C)
+        g0 = process_state()
         oA = execute(A, text)
+        g1 = process_state()
+        restore_process_state(g0)
         oB = execute(B, text)
+        restore_process_state(g0)
         oC = execute(C, text)
+        restore_process_state(g0)
         sA, sB, sC = snapshot(A), snapshot(B), snapshot(C)
         verb = top_verb(st) or "module"
+        # ---- oracle 4: process-global numeric state is state a later text depends on; no statement of the
+        #      grammar may change it (a fresh interpreter of the same process would be affected as well)
+        if g1 != g0:
+            d = state_diff(g0, g1)
+            ctx.oracle_fail("process-state:" + ",".join(sorted(d)), case, {k: v[0] for k, v in d.items()},
+                            {k: v[1] for k, v in d.items()},
+                            "the statement changed process-wide numeric state (numpy error handling, …): texts "
+                            "evaluated later - in this and in any other interpreter of the process - behave differently")
+            return False
+        if probes:
+            np.seterr(**g1["np.geterr"])          # what the process would look like without the harness's restore
+            after = run_probes()
+            restore_process_state(g0)
+            for t, o0, o1 in zip(PROBES, probe_base, after):
+                if not out_eq(o0, o1):
+                    ctx.oracle_fail("process-history:probe", dict(case, probe=t), out_text(o0), out_text(o1),
+                                    f"`{t}` in a brand-new interpreter with the same values gives a different outcome "
+                                    "after this history than before it")
+                    return False
         # ---- oracle 3: a verb wrote into an array that a variable or a cached tree holds
         if oA[0] == "err" and "read-only" in str(oA[2]):
             ctx.oracle_fail(f"writes-argument:{verb}", case, "no write to an existing array",
@@ -1030,7 +1141,10 @@ def run(ctx):
                 "lists of strings, depth-3 lists, amended directly and through take/drop/index/reverse; oracle-only histories of "
                 "int/real twin texts — compilable expressions differing only in 2 vs 2.0 — compared with kinds exact; Reshape with -1 wildcard shapes held in variables / aliases / function-body "
                 "literals / repeated texts; exact-vs-wrapping integer arithmetic under uncompiled verbs with big, "
-                "numpy-scalar and string operands); each statement re-run in a fresh interpreter loaded with a copy of the pre-state and in a "
+                "numpy-scalar and string operands; statements failing inside arithmetic verbs followed by overflow / underflow / "
+                "divide-by-zero / invalid probes, with process-global numeric state (np.geterr, print options, decimal "
+                "context, torch defaults) snapshotted around every statement and probe texts compared before/after in "
+                "brand-new interpreters); each statement re-run in a fresh interpreter loaded with a copy of the pre-state and in a "
                 "cache-cleared interpreter; distinct = distinct histories; non-trivial = at least two statements")
     ctx.assumptions += [
         "Python-side mutation of arrays obtained through klong[name] is outside the property",
@@ -1046,7 +1160,7 @@ def run(ctx):
                 c = json.loads(p.read_text())
                 run_history(ctx, [unjson(s) for s in c["history"]], drv, "corpus")
         for h in scripted_histories():
-            run_history(ctx, h, drv, "scripted")
+            run_history(ctx, h, drv, "scripted", probes=any("1e308" in stmt_text(x) for x in h))
             ctx.sample(dict(kind="scripted", texts=[stmt_text(s) for s in h][:12]), limit=3)
         n_model = 400 if quick else 6000
         n_ext = 120 if quick else 2500
@@ -1063,6 +1177,11 @@ def run(ctx):
             run_history(ctx, h, None, "history-twin")
             if s < 2:
                 ctx.sample(dict(kind="history-twin", texts=[stmt_text(x) for x in h]))
+        for s in range(100 if quick else 1500):
+            h = gen_numeric_history(ctx.rng, ctx.rng.randrange(4, 10 if quick else 14))
+            run_history(ctx, h, None, "history-numeric", probes=True)
+            if s < 1:
+                ctx.sample(dict(kind="history-numeric", texts=[stmt_text(x) for x in h]))
         for s in range(100 if quick else 1500):
             h = gen_reshape_history(ctx.rng, ctx.rng.randrange(4, 10 if quick else 14))
             run_history(ctx, h, None, "history-reshape")
@@ -1087,7 +1206,8 @@ def replay(ctx, case):
     drv = Driver("c04") if getattr(ctx, "driver_ok", True) else None
     c = case.get("case", case)
     try:
-        run_history(ctx, [unjson(s) for s in c["history"]], drv, c.get("kind", "replay"))
+        run_history(ctx, [unjson(s) for s in c["history"]], drv, c.get("kind", "replay"),
+                    probes=c.get("kind") in ("history-numeric", "scripted"))
     finally:
         if drv:
             drv.close()
